@@ -30,6 +30,29 @@ fn sequential(ctx: &mut Ctx) {
     }
 }
 
+/// Different name parts in one process: no path may be handed out twice across them either (name parts that
+/// extend each other by digits or separators would collide if the pieces of the name were simply concatenated).
+fn across_names(ctx: &mut Ctx) {
+    let names = ["level", "level1", "level10", "level2", "level_1", "level_", "", "0", "1", "_", "_1", "1_"];
+    let case = || json!({"AcrossNames": names});
+    ctx.announce(case);
+    ctx.nontrivial(&"across-names");
+    let got = guard(|| {
+        let mut all: HashSet<std::path::PathBuf> = HashSet::new();
+        let mut dup: Option<String> = None;
+        for _round in 0..150 {
+            for name in names {
+                let p = temp_file_name(name);
+                if !all.insert(p.clone()) && dup.is_none() {
+                    dup = Some(p.to_string_lossy().to_string());
+                }
+            }
+        }
+        dup
+    });
+    ctx.expect(|| "temp_file_name[different name parts](no path twice)".to_string(), got, &None, case);
+}
+
 fn free_running(ctx: &mut Ctx, threads: usize, calls: usize) {
     for name in ["shared", "x.bin"] {
         let case = || json!({"FreeRunning": {"threads": threads, "calls": calls, "name": name}});
@@ -116,6 +139,7 @@ fn explore(ctx: &mut Ctx) {
         return;
     }
     sequential(ctx);
+    across_names(ctx);
     histories(ctx);
     let calls = ctx.tier.pick(20_000, 200_000);
     free_running(ctx, 8, calls);
@@ -126,6 +150,8 @@ fn replay(ctx: &mut Ctx, v: &Value) {
         histories(ctx);
     } else if v.get("Sequential").is_some() {
         sequential(ctx);
+    } else if v.get("AcrossNames").is_some() {
+        across_names(ctx);
     } else {
         let t = v["FreeRunning"]["threads"].as_u64().unwrap_or(8) as usize;
         let c = v["FreeRunning"]["calls"].as_u64().unwrap_or(20_000) as usize;
